@@ -65,6 +65,7 @@ def to_api_fm(s):
 class Gen:
     def __init__(self, rng, acc, pool_size=6, max_hw=24):
         self.rng, self.acc = rng, acc
+        self.focus = None  # "eltwise-scales": only ADD/SUB/MUL with dense scale relationships (C09 register-level part)
         self.u65 = isa.ACCEL[acc]["u65"]
         self.cores = isa.ACCEL[acc]["cores"]
         self.max_hw = max_hw
@@ -235,12 +236,16 @@ class Gen:
     def elementwise(self):
         r = self.rng
         sub = str(r.choice(["ADD", "SUB", "MUL", "MIN", "MAX", "ABS", "LRELU", "SHR", "SHL", "CLZ", "ADD", "MUL"]))
+        if self.focus == "eltwise-scales":
+            sub = str(r.choice(["ADD", "SUB", "MUL", "ADD", "SUB"]))
         oh, ow = self.rand_hw()
         oc = int(r.choice([1, 4, 8, 16, 24, 33]))
         if sub in ("SHR", "SHL", "CLZ"):
             dtype = "INT32"
         else:
             dtype = self.rdtype(("INT8", "UINT8", "INT16", "INT32") if sub in ("ADD", "SUB", "MUL") else ("INT8", "UINT8", "INT16"))
+            if self.focus == "eltwise-scales":
+                dtype = self.rdtype(("INT8", "UINT8", "INT16", "INT16"))
         ifm = self.chain_ifm((oh, ow, oc), dtype) or self.fm((oh, ow, oc), dtype, name="ifm")
         odtype = dtype
         if sub in ("ADD", "SUB", "MUL") and dtype == "INT32":
@@ -271,6 +276,23 @@ class Gen:
             if dtype == "INT32":
                 spec["ifm2"].scale = spec["ifm2"].zp = None
             spec["reversed"] = bool(r.integers(0, 4) == 0)
+            if sub in ("ADD", "SUB", "MUL") and dtype != "INT32" and spec["scalar"] is None and ifm.scale is not None and spec["ifm2"].scale is not None and (self.focus == "eltwise-scales" or r.integers(0, 4) == 0):
+                # scale relationships that select different code paths of the scaling derivation: identical, one float32 step apart, nearly equal,
+                # power-of-two ratio, tiny (int16-like) values
+                rel = int(r.integers(0, 6))
+                s1 = np.float32(ifm.scale if rel != 5 else r.choice([3.0518e-5, 1.5259e-5, 6.1e-5, 0.0004]))
+                if rel == 0:
+                    s2 = s1
+                elif rel == 1:
+                    s2 = np.nextafter(s1, np.float32(1 if r.integers(0, 2) else 0), dtype=np.float32)
+                elif rel in (2, 5):
+                    s2 = np.float32(s1 * np.float32(1.0 + float(r.choice([1e-7, 1e-6, 5e-6, 1e-5, 6e-5, -1e-6, -5e-6]))))
+                elif rel == 3:
+                    s2 = np.float32(s1 * np.float32(2.0 ** int(r.integers(-3, 4))))
+                else:
+                    s2 = np.float32(spec["ifm2"].scale)
+                if spec["ifm2"] is not ifm:
+                    ifm.scale, spec["ifm2"].scale = float(s1), float(s2)
         self.last_ofm = ofm
         return spec
 
@@ -302,6 +324,9 @@ class Gen:
         out = []
         for _ in range(n):
             k = r.integers(0, 10)
+            if self.focus == "eltwise-scales":
+                out.append(self.elementwise())
+                continue
             if k <= 2:
                 out.append(self.conv_like("conv"))
             elif k == 3:
